@@ -636,7 +636,7 @@ def make_machine(rec, cls):
 
 
 def t_machine(rec, seed, tier, cls, shard):
-    n, steps = {"quick": (40, 20), "thorough": (300, 40)}[tier]
+    n, steps = {"quick": (80, 20), "thorough": (300, 40)}[tier]
     hyp_machine(rec, make_machine(rec, cls), n, steps, seed + shard, shrink_budget=20)
 
 
